@@ -312,6 +312,26 @@ func TestExhaustive(t *testing.T) {
 			}
 		}
 	}
+	// very many tiny records (a number of records around 2^16 and 2^17: counts, not sizes, may be
+	// what an implementation caps or stores in a narrow type)
+	for _, draft := range []int{2, 3} {
+		for _, rs := range []int{1, 2, 3} {
+			for _, k := range []int{65535, 65536, 65537, 131072, 131073} {
+				if !vh.Thorough() && k > 65537 && rs > 1 {
+					continue
+				}
+				for _, d := range []int{0, 1} {
+					l := k*rs + d
+					p := make([]byte, l)
+					rng.Read(p)
+					n++
+					if !exhProp.One(t, Case{Draft: draft, RS: rs, Len: l, Payload: p[:64], Seed: int64(k + rs), MaxRS: 16384, Reads: []int{7}, Drain: "readall", DrainAfter: 1}) {
+						return
+					}
+				}
+			}
+		}
+	}
 	vh.Exhaustive("exh", fmt.Sprintf("drafts {02,03} x record size %v x every payload length 0..3*rs+2 x %d payload filling(s) from PRNG(seed) x NewDecoder limit {16384, rs} x %d destination-buffer patterns (rotations of 1,rs-1,rs,rs+33,65536 and each size alone): %d round trips",
 		sizes, fills, len(readPatterns(2)), n))
 }
